@@ -1157,11 +1157,11 @@ func TestC12(t *testing.T) {
 		}
 		for _, s := range []string{"padA_on_wire", "padB_on_wire"} {
 			if len(k.sets[s]) != 512 {
-				core.HarnessError("vacuous: only %d distinct %s values were observed, want 512", len(k.sets[s]), s)
+				k.rep.Vacuous("vacuous: only %d distinct %s values were observed, want 512", len(k.sets[s]), s)
 			}
 		}
 		if k.ctr["a_completed_rc4"] == 0 || k.ctr["a_completed_plaintext"] == 0 || k.ctr["a_refused_as_required"] == 0 {
-			core.HarnessError("vacuous: counters %v", k.ctr)
+			k.rep.Vacuous("vacuous: counters %v", k.ctr)
 		}
 	}
 	if os.Getenv("VERIF_C12_DEBUG") != "" {
